@@ -13,7 +13,9 @@ def constants(tier, variant):
     c = {"MaxD": 2, "MaxExt": 3, "MaxDepth": 2, "MaxDim": 5, "Bases": vlib.Sub("BasesMixed"), "OpNames": set(OPS19),
          "ParenArgs": 3, "ParenLean": True, "OneDimQuirk": False, "Emit": True}
     if variant == "d3":
-        c.update({"MaxD": 3, "MaxExt": 2, "MaxDepth": 1 if tier == "quick" else 2})
+        c.update({"MaxD": 3, "MaxExt": 2, "MaxDepth": 1})
+        if tier == "thorough":
+            c.update({"MaxDepth": 2, "Bases": vlib.Sub("BasesTwo")})
     if variant == "recv":    # the const& and && overloads of every operation, on re-based roots
         c.update({"MaxExt": 2, "MaxDepth": 2, "Recvs": vlib.Sub("RecvsCR")})
     if tier == "thorough" and variant == "main":
@@ -50,7 +52,7 @@ def run(tier):
     if tier == "thorough":
         aplan += [("c19_arr_d2_deep", aconsts(2, 2, 3, True, aops)), ("c19_arr_d3", aconsts(3, 2, 2, True, aops))]
     for name, c in aplan:
-        c["ABases"] = vlib.Sub("ABasesMixed" if c["DimD"] == 1 or tier == "thorough" else "ABasesTwo")
+        c["ABases"] = vlib.Sub("ABasesMixed" if c["DimD"] == 1 or (tier == "thorough" and name == "c19_arr_d2") else "ABasesTwo")
         arrays.run_config(rep, "C19", name, c, exe_int, wd, len(c["Slots"]), check_first=True, sig_extra={"part": "arrays"})
     rep.notes.pop("_nontrivial", None); rep.notes.pop("_last_exps", None); rep.notes.pop("_last_obs", None)
     # the index-extension algebra itself (Extensions.tla): valid indices, canonical order, intersection
